@@ -105,6 +105,7 @@ impl Copy for St {}
 enum Slot<S: ShapeOps> {
     Tl(S::Tl),
     Mg(MergedTimeline<S::Tl>),
+    Mg2(MergedTimeline<MergedTimeline<S::Tl>>),     // a merge whose components are themselves merges
     An(EnumStateAnimator<St, S::Tl>),
 }
 
@@ -190,6 +191,7 @@ impl<S: ShapeOps> AnySession for Sess<S> {
             "meta" => match self.slots.get(&w[1].parse().unwrap()) {
                 Some(Slot::Tl(t)) => meta(t),
                 Some(Slot::Mg(m)) => meta(m),
+                Some(Slot::Mg2(m)) => meta(m),
                 _ => "bad-slot".into(),
             },
             "start" => {
@@ -197,6 +199,7 @@ impl<S: ShapeOps> AnySession for Sess<S> {
                 match self.slots.get_mut(&w[1].parse().unwrap()) {
                     Some(Slot::Tl(t)) => { t.start_with(&vs); "ok".into() }
                     Some(Slot::Mg(m)) => { m.start_with(&vs); "ok".into() }
+                    Some(Slot::Mg2(m)) => { m.start_with(&vs); "ok".into() }
                     _ => "bad-slot".into(),
                 }
             }
@@ -204,6 +207,7 @@ impl<S: ShapeOps> AnySession for Sess<S> {
                 let c = match self.slots.get(&w[1].parse().unwrap()) {
                     Some(Slot::Tl(t)) => Slot::Tl(t.clone()),
                     Some(Slot::Mg(m)) => Slot::Mg(m.clone()),
+                    Some(Slot::Mg2(m)) => Slot::Mg2(m.clone()),
                     _ => return "bad-slot".into(),
                 };
                 self.slots.insert(w[2].parse().unwrap(), c);
@@ -215,6 +219,7 @@ impl<S: ShapeOps> AnySession for Sess<S> {
                 match self.slots.get(&w[1].parse().unwrap()) {
                     Some(Slot::Tl(tl)) => tl.update(&mut vs, t),
                     Some(Slot::Mg(m)) => m.update(&mut vs, t),
+                    Some(Slot::Mg2(m)) => m.update(&mut vs, t),
                     _ => return "bad-slot".into(),
                 }
                 let out = show_vals(&S::to_vals(&vs));
@@ -228,6 +233,7 @@ impl<S: ShapeOps> AnySession for Sess<S> {
                 match self.slots.get(&w[1].parse().unwrap()) {
                     Some(Slot::Tl(tl)) => tl.update(&mut vs, t),
                     Some(Slot::Mg(m)) => m.update(&mut vs, t),
+                    Some(Slot::Mg2(m)) => m.update(&mut vs, t),
                     _ => return "bad-slot".into(),
                 }
                 show_vals(&S::to_vals(&vs))
@@ -244,6 +250,21 @@ impl<S: ShapeOps> AnySession for Sess<S> {
                 // a single component goes through `impl From<T> for MergedTimeline<T>` (documented as the same thing)
                 let merged = if tls.len() == 1 && slot % 2 == 1 { MergedTimeline::from(tls.pop().unwrap()) } else { MergedTimeline::of(tls) };
                 self.slots.insert(slot, Slot::Mg(merged));
+                "ok".into()
+            }
+            "merge2" => {
+                // `merge2 <slot> <n> <slot of a merge or of a timeline>… <shape>`: MergedTimeline::of over merged timelines
+                let slot: usize = w[1].parse().unwrap();
+                let n: usize = w[2].parse().unwrap();
+                let mut parts = Vec::new();
+                for i in 0..n {
+                    match self.slots.get(&w[3 + i].parse().unwrap()) {
+                        Some(Slot::Mg(m)) => parts.push(m.clone()),
+                        Some(Slot::Tl(t)) => parts.push(MergedTimeline::from(t.clone())),
+                        _ => {}
+                    }
+                }
+                self.slots.insert(slot, Slot::Mg2(MergedTimeline::of(parts)));
                 "ok".into()
             }
             "anim" => {
@@ -473,7 +494,7 @@ impl Runner {
         // stateful ops: the slot's shape is fixed by the op that created it
         let shape = match w[0] {
             "tl" | "anim" => { self.slot_shape.insert(w[1].to_string(), w[2].to_string()); w[2].to_string() }
-            "merge" => {
+            "merge" | "merge2" => {
                 let n: usize = w[2].parse().unwrap();
                 let sh = w[3 + n].to_string();
                 self.slot_shape.insert(w[1].to_string(), sh.clone());
